@@ -13,9 +13,25 @@ mechanism for threads, `asyncio.wait_for` for tasks).  What is replaced: the tra
 behind park points), the clock of the timeout (threads: `scrapli.decorators.wait` parks on the
 scheduler; tasks: the event loop's clock is real time plus jumps made by the scheduler).
 
-Events (the observation log, appended only by the caller that holds the baton):
-  ("start", c) ("acq", c) ("rel", c) ("w", c, hex) ("r", c, hex) ("x", c, what) ("close", c)
-  ("cancel", c) ("end", c, outcome)"""
+Actors.  A caller c is an actor (its thread and the pool workers it starts / its task).  Under asyncio
+any OTHER task that descends from caller c's task (asyncio.shield, ensure_future, create_task: the
+context is inherited) is a *sub-actor* ("o", c, j): it parks on its own, its transport events are
+logged under c, and it goes on being scheduled after c's operation has ended (an orphaned reader is
+I/O by a caller that holds nothing) -- the run ends only when every caller is through AND no sub-actor
+can make a step; sub-actors still inside a transport call at that point are reported (`pending_io`).
+
+Lock objects.  The channel is an instance of a subclass of the real class whose only addition is a
+`__setattr__` that wraps whatever lock object gets bound to `channel_lock` -- in `__init__` or at any
+later time (open(), ...) -- in the instrumented lock; a waiter stays on the object it started to wait
+for, the way `with self.channel_lock:` does.  Events of the second, third... lock object carry its ordinal.
+
+Re-open.  A caller with "retry" whose operation failed re-opens the connection (park point "reopen":
+transport.open() + channel.open(), the wire is revived, the old session's pending output is gone)
+and runs its operation again.
+
+Events (the observation log, appended only by the actor that holds the baton):
+  ("start", c) ("acq", c[, "lock#i"]) ("rel", c[, "lock#i"]) ("w", c, hex) ("r", c, hex) ("x", c, what)
+  ("close", c) ("cancel", c) ("kill", c) ("timeout", c) ("reopen", c) ("end", c, outcome)"""
 import asyncio
 import threading
 import time
@@ -82,13 +98,39 @@ class Core:
         self.max_steps = max_steps
         self.verdict = None             # None | "deadlock" | "starved" | "budget"
         self.aborting = False
-        self.lock_probe = lambda: False  # () -> is the channel lock currently held
+        self.lock_objects = []          # every lock object the channel bound to channel_lock, in order
         self.lock_owner = None
         self.fired = set()
         self.timeouts = {}              # c -> configured timeout (0 = none)
         self.final_lock = None          # is the lock held when the run ends / gets stuck
         self.final_owner = None         # ... and by whom
         self.stuck_now = False
+        self.pending_io = []            # sub-actors still inside a transport call when the run ended
+
+    def lock_probe(self):
+        """is a lock object of the channel currently held"""
+        return any(l.locked() for l in self.lock_objects)
+
+    @staticmethod
+    def owner(actor):
+        return actor if isinstance(actor, int) else actor[1]
+
+    def actors(self):
+        return list(range(self.n)) + sorted((a for a in self.state if not isinstance(a, int)), key=lambda a: a[1:])
+
+    def main_done(self, c):
+        return self.state.get(c, (None,))[0] == "done"
+
+    def kill_due(self, c, kind, k):
+        """an injected cancellation of caller c's task (asyncio): at its k-th transport call / while it waits for the lock"""
+        for i, f in enumerate(self.faults):
+            if f["caller"] != c or i in self.fired or self.main_done(c):
+                continue
+            if f["kind"] == "cancel" and kind in ("read", "write") and f.get("at") == k:
+                return i
+            if f["kind"] == "cancel_lockwait" and kind == "lockwait":
+                return i
+        return None
 
     # -- fault lookup -----------------------------------------------------------------------------
     def io_fault(self, c, k):
@@ -99,8 +141,8 @@ class Core:
 
     def timeout_due(self, c, kind, k):
         for i, f in enumerate(self.faults):
-            if f["caller"] != c or i in self.fired:
-                continue
+            if f["caller"] != c or i in self.fired or self.main_done(c):
+                continue                # (the timeout of an operation that has ended cannot elapse any more)
             if f["kind"] == "timeout_stuck" and self.stuck_now and kind in ("read", "write", "lockwait"):
                 return i
             if f["kind"] == "timeout" and kind in ("read", "write") and f.get("at") == k:
@@ -112,52 +154,70 @@ class Core:
     # -- which parked callers can make a step -------------------------------------------------------
     def enabled(self):
         opts = []
-        for c in range(self.n):
-            st = self.state.get(c)
+        for a in self.actors():
+            st = self.state.get(a)
             if st is None:
                 continue
+            c = self.owner(a)
             kind, info = st
-            if kind == "start":
-                opts.append((c, "start"))
+            if kind in ("start", "reopen"):
+                opts.append((a, kind))
             elif kind == "write":
-                opts.append((c, "write"))
+                opts.append((a, "write"))
             elif kind == "read":
                 k = info
                 if self.timeout_due(c, "read", k) is not None:
-                    opts.append((c, "timeout"))
+                    opts.append((a, "timeout"))
+                elif self.kill_due(c, "read", k) is not None:
+                    opts.append((a, "kill"))
                 elif (self.wire.pending() > 0 or self.wire.closed or self.wire.dead
                       or self.io_fault(c, k) is not None):
-                    opts.append((c, "read"))
+                    opts.append((a, "read"))
             elif kind == "lockwait_t":
-                opts.append((c, "lockwait"))
+                opts.append((a, "lockwait"))
             elif kind == "lockwait":
                 if self.timeout_due(c, "lockwait", None) is not None:
-                    opts.append((c, "timeout"))
-                elif not self.lock_probe():
-                    opts.append((c, "lockwait"))
+                    opts.append((a, "timeout"))
+                elif self.kill_due(c, "lockwait", None) is not None:
+                    opts.append((a, "kill"))
+                elif not (info.locked() if info is not None else self.lock_probe()):
+                    opts.append((a, "lockwait"))       # (the lock object this waiter waits for is free)
         if not opts and not self.stuck_now:
             # nobody can step (the device is silent): a configured timeout elapses
             self.stuck_now = True
             try:
-                for c in range(self.n):
-                    st = self.state.get(c)
-                    if st and st[0] in ("read", "write", "lockwait") and self.timeout_due(c, st[0], st[1]) is not None:
-                        return [(c, "timeout")]
+                for a in self.actors():
+                    st = self.state.get(a)
+                    if st and st[0] in ("read", "write", "lockwait") and self.timeout_due(self.owner(a), st[0], st[1]) is not None:
+                        return [(a, "timeout")]
             finally:
                 self.stuck_now = False
         # a write parked at a timeout point fires the timeout instead
         out = []
-        for c, what in opts:
-            if what == "write" and self.timeout_due(c, "write", self.state[c][1]) is not None:
-                out.append((c, "timeout"))
+        for a, what in opts:
+            if what == "write" and self.timeout_due(self.owner(a), "write", self.state[a][1]) is not None:
+                out.append((a, "timeout"))
             else:
-                out.append((c, what))
+                out.append((a, what))
         return out
+
+    def note_pending_io(self):
+        self.pending_io = [[self.owner(a), self.state[a][0]] for a in self.actors()
+                           if not isinstance(a, int) and self.state[a][0] in ("read", "write") and self.main_done(self.owner(a))]
+
+    def reopen_wire(self, c):
+        """caller c re-opens the connection: a fresh session (what was pending on the old one is gone)"""
+        w = self.wire
+        w.closed = False
+        w.dead = False
+        w.delivered = len(w.device.out)
+        w.device.line = bytearray()
+        self.events.append(("reopen", c))
 
     def has_waiters(self, c):
         """somebody else is waiting for the lock: an acquire is then a contention point — asyncio.Lock
         hands a released lock to the first waiter, threading.Lock to whoever comes first"""
-        return any(k != c and st[0] in ("lockwait", "lockwait_t") for k, st in self.state.items())
+        return any(self.owner(k) != c and st[0] in ("lockwait", "lockwait_t") for k, st in self.state.items())
 
     def all_done(self):
         return all(self.state.get(c, (None,))[0] == "done" for c in range(self.n))
@@ -308,7 +368,7 @@ class ThreadSched(Core):
                 return
             opts = self.enabled()
             if self.aborting:
-                parked = [c for c in range(self.n) if self.state[c][0] in ("start", "read", "write", "lockwait", "lockwait_t")]
+                parked = [c for c in range(self.n) if self.state[c][0] in ("start", "reopen", "read", "write", "lockwait", "lockwait_t")]
                 if not parked:
                     raise Wedged("aborting but nobody is parked and not all done")
                 self.grant(parked[0], "abort")
@@ -334,26 +394,45 @@ class ThreadSched(Core):
                 self.fired.add(i)
                 self.events.append(("timeout", c))
                 self.fire_timeout(c)
+            elif what == "kill":
+                raise Wedged("cancellation of a caller is an asyncio fault (threads cannot be cancelled)")
             else:
                 self.grant(c)
+
+
+def instrumented_channel_class(base, sched, wrapper):
+    """subclass of the real channel class; the only addition: whatever lock object is bound to
+    `channel_lock` (in __init__, open(), anywhere, any time) is wrapped in the instrumented lock"""
+
+    class Instrumented(base):
+        def __setattr__(self, name, value):
+            if name == "channel_lock" and value is not None and not isinstance(value, wrapper):
+                sched.lock_objects.append(value)
+                value = wrapper(value, sched, len(sched.lock_objects) - 1)
+            object.__setattr__(self, name, value)
+
+    Instrumented.__name__ = base.__name__
+    Instrumented.__qualname__ = base.__qualname__
+    return Instrumented
 
 
 class SchedLock:
     """delegates to the channel's own threading.Lock; waiting for it is a park point"""
 
-    def __init__(self, inner, sched):
+    def __init__(self, inner, sched, ordinal=0):
         self.inner = inner
         self.sched = sched
+        self.tag = () if not ordinal else ("lock#%d" % ordinal,)
 
     def acquire(self, blocking=True, timeout=-1):
         s = self.sched
         c = s.cid()
         if blocking and s.has_waiters(c):
-            s.park(c, "lockwait")
+            s.park(c, "lockwait", self.inner)
         while True:
             if self.inner.acquire(False):
                 s.lock_owner = c
-                s.events.append(("acq", c))
+                s.events.append(("acq", c) + self.tag)
                 return True
             if not blocking:
                 return False
@@ -364,14 +443,14 @@ class SchedLock:
                     s.events.append(("lock-timeout", c))
                     return False
                 continue
-            s.park(c, "lockwait")
+            s.park(c, "lockwait", self.inner)
 
     def release(self):
         s = self.sched
         c = s.cid()
         self.inner.release()
         s.lock_owner = None
-        s.events.append(("rel", c))
+        s.events.append(("rel", c) + self.tag)
 
     def locked(self):
         return self.inner.locked()
@@ -492,6 +571,8 @@ class TaskSched(Core):
         self.current = None       # caller running now
         self.tasks = {}
         self.deadline = {}        # c -> loop time at which its timeout elapses
+        self.subs = {}            # task -> sub-actor id ("o", c, j)
+        self.finished = False
 
     def cid(self):
         t = asyncio.current_task()
@@ -503,30 +584,62 @@ class TaskSched(Core):
             return c
         raise Wedged("transport used from a task that belongs to no caller")
 
+    def actor(self):
+        """the caller itself when its own task runs; a sub-actor for any other task descending from it"""
+        t = asyncio.current_task()
+        c = self.cid()
+        if self.tasks.get(c) is t:
+            return c
+        if t not in self.subs:
+            self.subs[t] = ("o", c, sum(1 for a in self.subs.values() if a[1] == c))
+            t.add_done_callback(self.sub_left)
+        return self.subs[t]
+
     def _give(self):
         if self.baton is not None and not self.baton.done():
             self.baton.set_result(None)
 
     async def park(self, c, kind, info=None):
+        a = self.actor()            # (c is the caller the actor belongs to)
         fut = self.loop.create_future()
-        self.parkfut[c] = fut
-        self.state[c] = (kind, info)
+        self.parkfut[a] = fut
+        self.state[a] = (kind, info)
         self._give()
         try:
             payload = await fut
         except asyncio.CancelledError:
-            self.state[c] = ("running", None)
-            self.events.append(("cancel", c))
+            self.state[a] = ("running", None) if isinstance(a, int) else ("done", None)
+            if not self.finished:
+                self.events.append(("cancel", c))
             raise
-        self.state[c] = ("running", None)
+        self.state[a] = ("running", None)
         if payload == "abort":
             raise Abort()
         return payload
+
+    def sub_left(self, task):
+        """a sub-actor's task ended (returned / raised) without parking again"""
+        a = self.subs.get(task)
+        if a is not None and self.state.get(a, (None,))[0] == "running":
+            self.state[a] = ("done", None)
+            if self.state.get(a[1], (None,))[0] != "running":
+                self._give()        # (a caller that is running -- awaiting this task -- gives the baton itself when it parks)
 
     async def _grant(self, c, payload=None):
         self.baton = self.loop.create_future()
         self.parkfut.pop(c).set_result(payload)
         await asyncio.wait_for(asyncio.shield(self.baton), WATCHDOG)
+
+    async def _kill(self, c):
+        """cancel caller c's task (what `task.cancel()` / an enclosing wait_for of the user does)"""
+        self.baton = self.loop.create_future()
+        self.events.append(("kill", c))
+        self.tasks[c].cancel()
+        t0 = time.monotonic()
+        while not self.baton.done():
+            await asyncio.sleep(0)
+            if time.monotonic() - t0 > WATCHDOG:
+                raise Wedged("watchdog: cancellation was not delivered")
 
     async def _fire(self, c):
         self.baton = self.loop.create_future()
@@ -549,6 +662,8 @@ class TaskSched(Core):
             await fn()
         except Abort:
             self.events.append(("end", c, "Aborted"))
+        except asyncio.CancelledError:
+            pass                    # (recorded by the starter; the task just ends)
         finally:
             self.state[c] = ("done", None)
             self._give()
@@ -560,13 +675,16 @@ class TaskSched(Core):
             self.tasks[c] = self.loop.create_task(self._caller(c, fn))
             await asyncio.wait_for(asyncio.shield(self.baton), WATCHDOG)
         while True:
-            if self.all_done():
+            opts = self.enabled()
+            if self.all_done() and (not opts or self.aborting):
+                # every caller is through and no task left behind by one of them can make a step
                 if self.final_lock is None:
                     self.final_lock = bool(self.lock_probe())
+                self.note_pending_io()
                 break
-            opts = self.enabled()
             if self.aborting:
-                parked = [c for c in range(self.n) if self.state[c][0] in ("start", "read", "write", "lockwait", "lockwait_t")]
+                parked = [a for a in self.actors() if self.state[a][0] in ("start", "reopen", "read", "write", "lockwait", "lockwait_t")
+                          and not self.main_done(self.owner(a))]      # (a caller may be waiting for a task of its own that is parked)
                 if not parked:
                     raise Wedged("aborting but nobody is parked and not all done")
                 await self._grant(parked[0], "abort")
@@ -584,16 +702,21 @@ class TaskSched(Core):
             ix = self.chooser(self.steps, opts)
             self.choices.append((ix, len(opts)))
             self.steps += 1
-            c, what = opts[ix]
+            a, what = opts[ix]
+            c = self.owner(a)
             if what == "timeout":
                 self.stuck_now = True
-                i = self.timeout_due(c, self.state[c][0], self.state[c][1])
+                i = self.timeout_due(c, self.state[a][0], self.state[a][1])
                 self.stuck_now = False
                 self.fired.add(i)
                 self.events.append(("timeout", c))
                 await self._fire(c)
+            elif what == "kill":
+                self.fired.add(self.kill_due(c, self.state[a][0], self.state[a][1]))
+                await self._kill(c)
             else:
-                await self._grant(c)
+                await self._grant(a)
+        self.finished = True
         for t in self.tasks.values():
             await asyncio.wait_for(asyncio.shield(t), WATCHDOG)
 
@@ -602,6 +725,7 @@ class TaskSched(Core):
         try:
             loop.run_until_complete(self._drive(starters))
         finally:
+            self.finished = True
             try:
                 for t in asyncio.all_tasks(loop):
                     t.cancel()
@@ -613,20 +737,21 @@ class TaskSched(Core):
 class ASchedLock:
     """delegates to the channel's own asyncio.Lock; waiting for it is a park point"""
 
-    def __init__(self, inner, sched):
+    def __init__(self, inner, sched, ordinal=0):
         self.inner = inner
         self.sched = sched
+        self.tag = () if not ordinal else ("lock#%d" % ordinal,)
 
     async def acquire(self):
         s = self.sched
         c = s.cid()
         if s.has_waiters(c):
-            await s.park(c, "lockwait")
+            await s.park(c, "lockwait", self.inner)
         while self.inner.locked():
-            await s.park(c, "lockwait")
+            await s.park(c, "lockwait", self.inner)
         await self.inner.acquire()     # free: does not suspend
         s.lock_owner = c
-        s.events.append(("acq", c))
+        s.events.append(("acq", c) + self.tag)
         return True
 
     def release(self):
@@ -634,7 +759,7 @@ class ASchedLock:
         c = s.cid()
         self.inner.release()
         s.lock_owner = None
-        s.events.append(("rel", c))
+        s.events.append(("rel", c) + self.tag)
 
     def locked(self):
         return self.inner.locked()
